@@ -571,16 +571,12 @@ public:
 
       abs_dom_t callee_ctx_inv(this->m_inv);
       // --- matching formal and actual parameters
-      // XXX: propagating down
-      unsigned i = 0;
+      // XXX: propagating down. This must be done in parallel because
+      // a formal parameter can be also the actual parameter of
+      // another formal parameter.
       const std::vector<variable_t> &inputs = summ.get_inputs();
-      for (const variable_t &p : inputs) {
-        const variable_t &a = cs.get_arg_name(i);
-        if (!(a == p)) {
-          inter_transformer_helpers<abs_dom_t>::unify(callee_ctx_inv, p, a);
-        }
-        ++i;
-      }
+      inter_transformer_helpers<abs_dom_t>::unify(callee_ctx_inv, inputs,
+                                                  cs.get_args());
 
       // --- project only onto formal parameters
       callee_ctx_inv.project(inputs);
